@@ -361,6 +361,8 @@ COMBO_CONSUMERS = [
     # urls and quotes next to each other
     'see =mark http://u.v/p= today', 'see ==x http://u.v/== end', '~w http://a.b/c~ and +http://h/q?x=+ !http://e.f/! ', '*http://a.b/c* _<http://d.e/>_ `http://f.g/`',
     '#### Head `c` zz ####', 'term:: =def= {u}', '- =a http://u.v/=\n- {q|=b=}',
+    # blocks whose whole text expands to nothing when macros are on
+    '  {--}', '  {--} \n  {--}', '> {--}', '``\n{--}\n``', '..\n{--}\n..', '  {u?}', '<div>{--}</div>', '- {--}\n\n  {--}',
 ]
 
 
